@@ -1,28 +1,35 @@
 import Wx.Job.Sim
+import Wx.Job.Api
 namespace Wx.Driver.Job
 open Jm
 
 def sigNum (n : Nat) : Nat := if 1 ≤ n ∧ n ≤ 31 then n else 15
 
-/-- API method name -> (priority, control list), mirrors job.rs -/
+/-- script spelling of an API call -/
+def parseApi (parts : List String) : Option ApiCall :=
+  match parts with
+  | ["start"] => some .start
+  | ["stop"] => some .stop
+  | ["gstop", g, ms] => some (.stopWithSignal (sigNum g.toNat!) ms.toNat!)
+  | ["restart"] => some .restart
+  | ["grestart", g, ms] => some (.restartWithSignal (sigNum g.toNat!) ms.toNat!)
+  | ["tryrestart"] => some .tryRestart
+  | ["gtryrestart", g, ms] => some (.tryRestartWithSignal (sigNum g.toNat!) ms.toNat!)
+  | ["signal", g] => some (.signal (sigNum g.toNat!))
+  | ["towait"] => some .toWait
+  | ["delete"] => some .delete
+  | ["deletenow"] => some .deleteNow
+  | ["run", id] => some (.run id.toNat!)
+  | ["seterr"] => some .setErrorHandler
+  | ["unseterr"] => some .unsetErrorHandler
+  | _ => none
+
+/-- (priority, control list) of a scripted call: `Jm.apiOf` (tied to the generated table of job.rs by
+    `Jm.api_generated`); `continue` is the internal continuation control sent through `Job::control` -/
 def apiCtls (parts : List String) : Option (Prio × List Ctl) :=
   match parts with
-  | ["start"] => some (.normal, [.start])
-  | ["stop"] => some (.normal, [.stop])
-  | ["gstop", g, ms] => some (.normal, [.gracefulStop (sigNum g.toNat!) ms.toNat!])
-  | ["restart"] => some (.normal, [.stop, .start])
-  | ["grestart", g, ms] => some (.normal, [.gracefulStop (sigNum g.toNat!) ms.toNat!, .start])
-  | ["tryrestart"] => some (.normal, [.tryRestart])
-  | ["gtryrestart", g, ms] => some (.normal, [.tryGracefulRestart (sigNum g.toNat!) ms.toNat!])
-  | ["signal", g] => some (.normal, [.signal (sigNum g.toNat!)])
-  | ["towait"] => some (.high, [.nextEnding])
-  | ["delete"] => some (.normal, [.stop, .delete])
-  | ["deletenow"] => some (.urgent, [.stop, .delete])
-  | ["run", id] => some (.normal, [.func id.toNat!])
   | ["continue"] => some (.normal, [.continueTGR])
-  | ["seterr"] => some (.normal, [.setErr])
-  | ["unseterr"] => some (.normal, [.unsetErr])
-  | _ => none
+  | _ => (parseApi parts).map apiOf
 
 def parseBeh (s : String) : Option Beh :=
   match s.toList with
